@@ -184,6 +184,10 @@ def base_env(method='GET'):
 
 
 def wsgi_call(app, env):
+    return core.with_timeout(lambda: _wsgi_call(app, env), 10)
+
+
+def _wsgi_call(app, env):
     st = {}
 
     def sr(status, headers, exc_info=None):
